@@ -110,3 +110,28 @@ def install(mode):
 
 def mode():
     return _installed
+
+
+class _LogName:
+    """stand-in for the ``Name`` module where it is only used to render log arguments (logging is disabled
+    globally; rendering a name with symbolic components would enumerate every byte value)"""
+    def __init__(self, real):
+        self._real = real
+
+    def to_str(self, name):
+        return '<name>'
+
+    def __getattr__(self, k):
+        return getattr(self._real, k)
+
+
+LOG_ONLY_NAME_MODULES = ('ndn.security.validator.digest_validator',)
+
+
+def _log_hook(module):
+    if module.__name__ in LOG_ONLY_NAME_MODULES and 'Name' in module.__dict__ and \
+            not isinstance(module.__dict__['Name'], _LogName):
+        module.__dict__['Name'] = _LogName(module.__dict__['Name'])
+
+
+POST_EXEC_HOOKS.append(_log_hook)
